@@ -49,6 +49,10 @@ def make_arg(ptype, name):
         return Opt(dsl.fresh_bool(name + "#none"), dsl.fresh_float(name))
     if ptype == "optint":
         return Opt(dsl.fresh_bool(name + "#none"), dsl.fresh_int(name))
+    if ptype == "optdata":
+        from .heap import DataV
+
+        return Opt(dsl.fresh_bool(name + "#none"), DataV(dsl.fresh_ref(name)))
     if ptype == "optstr":
         return Opt(dsl.fresh_bool(name + "#none"), StrV(z3.Const(fresh_name(name), dsl.Str)))
     if ptype == "none":
@@ -155,6 +159,10 @@ class FunctionalContract(Contract):
                 v = Opt(True, Num.lift(0)) if v is NONEV else Opt(False, Num.lift(v))
             if t == "bool" and isinstance(v, Num):
                 v = v.ne(0)
+            if t == "optdata" and not isinstance(v, Opt):
+                from .heap import DataV
+
+                v = Opt(True, DataV(dsl.NONE)) if v is NONEV else Opt(False, v)
             out.append(v)
         return out
 
